@@ -104,11 +104,14 @@ impl SimStore {
     }
 
     async fn pre(&self, op: &'static str, path: &str, extra: &str) -> Fault {
-        ISSUE_OBSERVER.with(|o| {
-            if let Some(f) = o.borrow().as_ref() {
-                f(self.node, op, path)
-            }
-        });
+        // a request of a dead incarnation (a task the crashed process left behind) is never issued
+        if sim::alive(self.node, self.inc) {
+            ISSUE_OBSERVER.with(|o| {
+                if let Some(f) = o.borrow().as_ref() {
+                    f(self.node, op, path)
+                }
+            });
+        }
         let site = if extra.is_empty() { format!("{op} {path}") } else { format!("{op} {path} {extra}") };
         let f = sim::gate(self.node, self.inc, GateClass::Store, site).await;
         match f {
